@@ -25,7 +25,10 @@ import (
 // list.
 func init() {
 	Register(&Scenario{Prop: "C12", Desc: "listing players/servers and DisconnectAll during joins/leaves/switches", Run: runC12,
-		Quick: 64, Thorough: 20000, Race: true, Crash: true,
+		Quick: 48, Thorough: 20000, Race: true, Crash: true,
+		// the property is about the listing calls and the registries they read
+		RaceScope: []string{"proxy.(*Proxy).Players", "proxy.(*Proxy).PlayerCount", "proxy.(*Proxy).Servers", "proxy.(*Proxy).DisconnectAll", "proxy.(*Proxy).Player(", "proxy.(*Proxy).PlayerByName",
+			"proxy.(*players).", "proxy.(*Proxy).registerConnection", "proxy.(*Proxy).unregisterConnection", "proxy.(*Proxy).Register(", "proxy.(*Proxy).Unregister("},
 		Real:  "proxy.Proxy (Players, PlayerCount, Servers, DisconnectAll, registerConnection/unregisterConnection), registeredServer.players, login/switch/teardown paths; Go race detector on real lock operations",
 		Model: "client and backend actors, lister actors; registry membership sampled by the driver after every step"})
 }
